@@ -9,7 +9,9 @@ from fractions import Fraction
 
 import numpy as np
 
-from ..kit import cnat, cnatl, cstr
+import itertools
+
+from ..kit import cnat, cnatl, cstr, cz, czl, cq, cql, cbool, clist, frac
 
 HDR = ("From Coq Require Import String.\nFrom Coq Require Import List Arith.\n"
        "From NV.Lib Require Import SlotAlg.\nFrom NV.Generated Require Import SliceTiming.\n"
@@ -122,9 +124,533 @@ def slicetiming(ck):
     ck.section("slicetiming", names=len(reg), n_max=nmax, TRs=TRs, model_cases=len(terms))
 
 
+# ============================================================ time_slice_diffs
+HDR_TSD = ("From Coq Require Import List ZArith QArith.\nFrom NV.Lib Require Import C19Index Harness.\n"
+           "From NV.C19 Require Import TsdModel.\n")
+TSD_KEYS = ("volume_mean_diff2", "slice_mean_diff2", "volume_means", "diff2_mean_vol", "slice_diff2_max_vol")
+
+
+def _tsd_shapes(ck):
+    """2..5 dims, extents 1..4 (quick: the 4-d/5-d families are thinned deterministically)."""
+    out = []
+    for nd in (2, 3, 4, 5):
+        alls = list(itertools.product(range(1, 5), repeat=nd))
+        if ck.thorough() or nd <= 3:
+            out += alls
+        else:
+            rng = ck.rng("tsd-shapes-%d" % nd)
+            keep = rng.choice(len(alls), size=60 if nd == 4 else 40, replace=False)
+            out += [alls[i] for i in sorted(keep)]
+    return out
+
+
+def _tsd_reference(arr, ta, sa):
+    """Definition in terms of successive-volume squared differences, written with direct NumPy
+    indexing on the ORIGINAL axis order (no rollaxis): independent of the implementation."""
+    n = arr.ndim
+    T, S = arr.shape[ta], arr.shape[sa]
+    sav = sa if sa < ta else sa - 1                  # position of the slice axis inside a volume
+    vols = [np.take(arr, t, axis=ta) for t in range(T)]
+    means = np.array([v.mean() for v in vols])
+    d2 = [(vols[t + 1] - vols[t]) ** 2 for t in range(T - 1)]
+    other = tuple(k for k in range(n - 1) if k != sav)
+    sl = np.array([[np.take(d, s, axis=sav).mean() for s in range(S)] for d in d2]).reshape(T - 1, S)
+    vold = np.array([d.mean() for d in d2])
+    vshape = vols[0].shape
+    if T > 1:
+        dmv = sum(d2) / (T - 1)
+    else:
+        dmv = np.full(vshape, np.nan)
+    smv = np.zeros(vshape)
+    for s in range(S):
+        if T > 1:
+            col = sl[:, s]
+            tstar = int(np.argmax(col))              # first maximum
+            idx = [slice(None)] * (n - 1)
+            idx[sav] = s
+            smv[tuple(idx)] = d2[tstar][tuple(idx)]
+    return {"volume_mean_diff2": vold, "slice_mean_diff2": sl, "volume_means": means,
+            "diff2_mean_vol": dmv, "slice_diff2_max_vol": smv}
+
+
+def _same(a, b):
+    a = np.asarray(a, dtype=float)
+    b = np.asarray(b, dtype=float)
+    return a.shape == b.shape and bool(np.all((a == b) | (np.isnan(a) & np.isnan(b))))
+
+
+def _qmat(m):
+    return clist([cql([frac(x) for x in row]) for row in m])
+
+
+def timediff(ck):
+    from nipy.algorithms.diagnostics.timediff import time_slice_diffs, time_slice_diffs_image
+    rng = ck.rng("tsd-data")
+    shapes = _tsd_shapes(ck)
+    n_model = ck.n(260, 2600)
+    cases = []          # candidates for the Coq correspondence
+    n_calls = 0
+    for shape in shapes:
+        nd = len(shape)
+        # multiples of 81 = 3^4: every mean (count = product of extents in 1..4) is exact in binary floating point
+        arr = (81 * rng.integers(-8, 9, size=shape)).astype(float)
+        for ta in range(nd):
+            for sa in range(nd):
+                variants = [(ta, sa), (ta - nd, sa), (ta, sa - nd), (ta - nd, sa - nd)]
+                if ta == sa:
+                    for tv, sv in variants:
+                        n_calls += 1
+                        ck.count(("tsd-same", shape, tv, sv), nontrivial=False, bucket="tsd:same-axis")
+                        try:
+                            time_slice_diffs(arr, tv, sv)
+                            ck.fail("tsd/same-axis-accepted", "time_slice_diffs(shape %s, time_axis=%d, slice_axis=%d) did not raise ValueError"
+                                    % (shape, tv, sv), {"shape": shape, "time_axis": tv, "slice_axis": sv})
+                        except ValueError:
+                            pass
+                    if len(shape) <= 3 and max(shape) <= 2:
+                        cases.append(("raise", shape, None, ta - nd, sa, None))
+                    continue
+                default_sa = (nd - 2) if ta == nd - 1 else (nd - 1)
+                if sa == default_sa:
+                    variants += [(ta, None), (ta - nd, None)]
+                ref = _tsd_reference(arr, ta, sa)
+                sav = sa if sa < ta else sa - 1
+                # default-position call on the axis-moved array (explicit transpose, contiguous copy)
+                axes = [ta, sa] + [k for k in range(nd) if k not in (ta, sa)]
+                moved = np.ascontiguousarray(arr.transpose(axes))
+                try:
+                    r0 = time_slice_diffs(moved, 0, 1)
+                except Exception as e:  # noqa
+                    ck.fail("tsd/raises", "time_slice_diffs(shape %s, 0, 1) raised %s" % (moved.shape, e),
+                            {"shape": list(moved.shape), "time_axis": 0, "slice_axis": 1, "data": moved.ravel().tolist()})
+                    continue
+                for tv, sv in variants:
+                    n_calls += 1
+                    neg = "neg" if (tv < 0 or (sv is not None and sv < 0)) else "pos"
+                    kind = "none" if sv is None else neg
+                    nontriv = shape[ta] > 1 and int(np.prod(shape)) > shape[ta]
+                    ck.count(("tsd", shape, tv, sv), nontrivial=nontriv, bucket="tsd:%dd:%s" % (nd, kind))
+                    rep = {"shape": list(shape), "time_axis": tv, "slice_axis": sv, "data": arr.ravel().tolist()}
+                    try:
+                        r = time_slice_diffs(arr, tv, sv) if sv is not None else time_slice_diffs(arr, tv)
+                    except Exception as e:  # noqa
+                        ck.fail("tsd/raises/%s" % kind, "time_slice_diffs(shape %s, %s, %s) raised %s: %s"
+                                % (shape, tv, sv, type(e).__name__, e), rep)
+                        continue
+                    # (a) definition oracle: direct indexing on the original axis order
+                    for key in TSD_KEYS:
+                        if not _same(r[key], ref[key]):
+                            ck.fail("tsd/definition/%s/%s" % (key, kind),
+                                    "time_slice_diffs(shape %s, time_axis=%s, slice_axis=%s)[%r] differs from its definition "
+                                    "(successive-volume squared differences indexed on the original axes): got %s, expected %s"
+                                    % (shape, tv, sv, key, np.asarray(r[key]).tolist(), ref[key].tolist()), rep)
+                    # (b) axis equivariance on the implementation itself
+                    for key in TSD_KEYS[:3]:
+                        if not _same(r[key], r0[key]):
+                            ck.fail("tsd/equivariance/%s/%s" % (key, kind),
+                                    "time_slice_diffs(shape %s, %s, %s)[%r] differs from the default-position call on the axis-moved array"
+                                    % (shape, tv, sv, key), rep)
+                    for key in TSD_KEYS[3:]:
+                        back = np.moveaxis(r0[key], 0, sav)
+                        if not _same(r[key], back):
+                            ck.fail("tsd/equivariance/%s/%s" % (key, kind),
+                                    "time_slice_diffs(shape %s, %s, %s)[%r] differs from the default-position result transposed back "
+                                    "(shape %s vs %s)" % (shape, tv, sv, key, np.asarray(r[key]).shape, back.shape), rep)
+                    cases.append(("ok", shape, arr, tv, sv, r))
+                    if shape == (2, 3, 2) and (tv, sv) == (-3, 2):
+                        ck.sample({"call": "time_slice_diffs(arr(2,3,2), time_axis=-3, slice_axis=2)",
+                                   "data": arr.ravel().tolist(),
+                                   "slice_mean_diff2": np.asarray(r["slice_mean_diff2"]).tolist(),
+                                   "slice_diff2_max_vol": np.asarray(r["slice_diff2_max_vol"]).ravel().tolist()})
+    # ---- correspondence with the Coq model (exact, vm_compute)
+    n_cmp = 0
+    if ck.build is not None and ck.build.ok:
+        pick = ck.rng("tsd-pick")
+        oks = [c for c in cases if c[0] == "ok"]
+        # favour small arrays (fast) but keep every ndim and every axis-variant kind
+        oks.sort(key=lambda c: (int(np.prod(c[1])), c[1], c[3], -1 if c[4] is None else c[4]))
+        small = [c for c in oks if int(np.prod(c[1])) <= 96]
+        big = [c for c in oks if int(np.prod(c[1])) > 96]
+        chosen = []
+        if small:
+            idx = pick.choice(len(small), size=min(len(small), n_model), replace=False)
+            chosen += [small[i] for i in sorted(idx)]
+        if big:
+            idx = pick.choice(len(big), size=min(len(big), max(20, n_model // 10)), replace=False)
+            chosen += [big[i] for i in sorted(idx)]
+        chosen += [c for c in cases if c[0] == "raise"][:40]
+        terms, meta = [], []
+        for kind, shape, arr, tv, sv, r in chosen:
+            sa_t = "None" if sv is None else "(Some %s)" % cz(sv)
+            if kind == "raise":
+                terms.append("tsd_raises %s %s %s" % (cnatl(shape), cz(tv), sa_t))
+                meta.append((kind, shape, None, tv, sv, None))
+                continue
+            dmv = np.asarray(r["diff2_mean_vol"], dtype=float)
+            isnan = bool(np.isnan(dmv).all()) if dmv.size else False
+            if np.isnan(dmv).any() and not isnan:
+                ck.fail("tsd/nan-in-output", "diff2_mean_vol has some NaN entries for shape %s" % (shape,),
+                        {"shape": list(shape), "time_axis": tv, "slice_axis": sv, "data": arr.ravel().tolist()})
+                continue
+            e_dmv = "[]" if isnan else cql([frac(x) for x in dmv.ravel()])
+            terms.append("tsd_check %s %s %s %s %s %s %s %s %s %s %s" % (
+                cnatl(shape), czl([int(x) for x in arr.ravel()]), cz(tv), sa_t,
+                cql([frac(x) for x in r["volume_mean_diff2"]]), _qmat(r["slice_mean_diff2"]),
+                cql([frac(x) for x in r["volume_means"]]), cnatl(dmv.shape), e_dmv,
+                cql([frac(x) for x in np.asarray(r["slice_diff2_max_vol"], dtype=float).ravel()]), cbool(isnan)))
+            meta.append((kind, shape, arr, tv, sv, r))
+        res = ck.coq_bools(HDR_TSD, terms, shard=60, name="tsd")
+        n_cmp = len(res)
+        ck.cov["traces_validated_against_impl"] += n_cmp
+        for ok, (kind, shape, arr, tv, sv, r) in zip(res, meta):
+            if not ok:
+                rep = {"shape": list(shape), "time_axis": tv, "slice_axis": sv,
+                       "data": None if arr is None else arr.ravel().tolist()}
+                if kind == "ok":
+                    sa_t = "None" if sv is None else "(Some %s)" % cz(sv)
+                    rep["model_slice_mean_diff2"] = ck.coq_show(
+                        HDR_TSD, "match tsd (of_flat 0%%Z %s %s) %s %s with Ok o => Some (slice_mean_diff2 o, to_flat (slice_diff2_max_vol o), shp (diff2_mean_vol o)) | _ => None end"
+                        % (cnatl(shape), czl([int(x) for x in arr.ravel()]), cz(tv), sa_t))
+                    rep["impl"] = {k: np.asarray(r[k]).tolist() for k in TSD_KEYS}
+                ck.fail("tsd/model-vs-impl/%s" % ("raise" if kind == "raise" else "none" if sv is None else "neg" if (tv < 0 or sv < 0) else "pos"),
+                        "Coq model of time_slice_diffs and the implementation disagree for shape %s, time_axis=%s, slice_axis=%s"
+                        % (shape, tv, sv), rep)
+                break
+    # ---- image wrapper: axis names resolve to the same array call
+    n_img = _timediff_image(ck, time_slice_diffs, time_slice_diffs_image)
+    ck.section("time_slice_diffs", shapes=len(shapes), impl_calls=n_calls, model_cases=n_cmp, image_cases=n_img,
+               data="81 * integers in [-8, 8] (all means exact in binary floating point)")
+
+
+def _timediff_image(ck, tsd_arr, tsd_img):
+    from nipy.core.api import Image, AffineTransform
+    rng = ck.rng("tsd-img")
+    n = 0
+    names_in = "ijkl"
+    names_out = "xyzt"
+    shapes = [(2, 3, 2, 3), (3, 2, 4), (2, 2, 3, 2), (3, 4)]
+    for shape in shapes:
+        nd = len(shape)
+        arr = (81 * rng.integers(-8, 9, size=shape)).astype(float)
+        dom = names_in[:nd]
+        ran = names_out[:nd - 1] + "t"
+        cmap = AffineTransform.from_params(dom, ran, np.diag([2.0, 3.0, 4.0, 5.0, 1.0][:nd] + [1.0]))
+        img = Image(arr, cmap)
+        for ta in range(nd):
+            for sa in range(nd):
+                if ta == sa:
+                    continue
+                ref = tsd_arr(arr, ta, sa)
+                specs = [(ta, sa), (dom[ta], dom[sa]), (ran[ta], sa), (ta - nd, dom[sa]), (dom[ta], ran[sa]), (ta, sa - nd)]
+                for tspec, sspec in specs:
+                    n += 1
+                    ck.count(("tsd-img", shape, tspec, sspec), bucket="tsd:image")
+                    rep = {"shape": list(shape), "domain": dom, "range": ran, "time_axis": tspec, "slice_axis": sspec,
+                           "data": arr.ravel().tolist()}
+                    try:
+                        r = tsd_img(img, tspec, sspec)
+                    except Exception as e:  # noqa
+                        ck.fail("tsd-image/raises", "time_slice_diffs_image(time_axis=%r, slice_axis=%r) raised %s: %s"
+                                % (tspec, sspec, type(e).__name__, e), rep)
+                        continue
+                    for key in TSD_KEYS:
+                        got = r[key].get_fdata() if hasattr(r[key], "get_fdata") else r[key]
+                        if not _same(got, ref[key]):
+                            ck.fail("tsd-image/differs-from-array-call/%s" % key,
+                                    "time_slice_diffs_image(time_axis=%r, slice_axis=%r)[%r] differs from time_slice_diffs(arr, %d, %d)"
+                                    % (tspec, sspec, key, ta, sa), rep)
+                    exp_names = tuple(nm for k, nm in enumerate(dom) if k != ta)
+                    for key in TSD_KEYS[3:]:
+                        got = tuple(r[key].coordmap.function_domain.coord_names)
+                        if got != exp_names:
+                            ck.fail("tsd-image/volume-axis-names", "volume output %r has axes %s, expected %s (time axis %r dropped)"
+                                    % (key, got, exp_names, tspec), rep)
+    return n
+
+
+# ============================================================ labs/mask.py
+HDR_MASK = ("From Coq Require Import List ZArith QArith.\nFrom NV.Lib Require Import Harness.\n"
+            "From NV.C19 Require Import MaskModel.\n")
+
+
+def _components(mask):
+    """Independent 6-connectivity labelling (BFS in row-major scan order): list of sorted voxel lists."""
+    mask = np.asarray(mask) != 0
+    seen = np.zeros(mask.shape, bool)
+    comps = []
+    for idx in np.ndindex(mask.shape):
+        if mask[idx] and not seen[idx]:
+            comp, stack = [], [idx]
+            seen[idx] = True
+            while stack:
+                p = stack.pop()
+                comp.append(p)
+                for ax in range(mask.ndim):
+                    for d in (-1, 1):
+                        q = list(p)
+                        q[ax] += d
+                        q = tuple(q)
+                        if 0 <= q[ax] < mask.shape[ax] and mask[q] and not seen[q]:
+                            seen[q] = True
+                            stack.append(q)
+            comps.append(sorted(comp))
+    return comps
+
+
+def _ref_threshold(vals, m, M, exclude_zeros):
+    """Stated semantics, exact arithmetic: sorted values, window floor(m n)..floor(M n), first largest gap, mid-point."""
+    from math import floor
+    s = sorted(Fraction(*float(v).as_integer_ratio()) for v in vals)
+    if exclude_zeros:
+        s = [v for v in s if v != 0]
+    n = len(s)
+    li, ls = floor(Fraction(*float(m).as_integer_ratio()) * n), floor(Fraction(*float(M).as_integer_ratio()) * n)
+    if li < 0 or ls >= n or ls <= li:
+        return None
+    gaps = [s[k + 1] - s[k] for k in range(li, ls)]
+    ia = gaps.index(max(gaps))
+    return (s[li + ia] + s[li + ia + 1]) / 2
+
+
+def _obools(x):
+    return "None" if x is None else "(Some %s)" % clist([cbool(bool(b)) for b in x])
+
+
+def masks(ck):
+    import math
+    from scipy import ndimage
+    from nipy.labs import mask as nm
+    rng = ck.rng("mask")
+    # ---------------- compute_mask threshold search
+    shapes = [(2, 2, 2), (3, 3, 2), (2, 3, 4), (4, 3, 3), (1, 5, 3), (4, 4, 4)]
+    windows = [(0.25, 0.875), (0.125, 0.75), (0.2, 0.9), (0.0, 0.5), (0.5, 0.5), (0.375, 0.9375), (0.3, 0.7)]
+    ncm = ck.n(140, 1200)
+    terms, meta = [], []
+    n_aff = 0
+    for ci in range(ncm):
+        shape = shapes[ci % len(shapes)]
+        m, M = windows[(ci // len(shapes)) % len(windows)]
+        kind = ci % 4
+        if kind == 0:
+            vol = rng.integers(0, 6, size=shape).astype(float)              # many ties, zeros
+        elif kind == 1:
+            vol = rng.integers(-20, 40, size=shape).astype(float)
+        elif kind == 2:
+            vol = rng.integers(-64, 64, size=shape) / 8.0                   # dyadic
+        else:
+            vol = np.where(rng.random(shape) < 0.5, rng.integers(0, 4, size=shape), rng.integers(30, 40, size=shape)).astype(float)
+        ez = bool((ci // 3) % 2)
+        ref = vol if ci % 5 else rng.integers(-20, 40, size=shape).astype(float)
+        nvals = int((vol != 0).sum()) if ez else vol.size
+        exact_floor = (math.floor(m * nvals) == math.floor(Fraction(*m.as_integer_ratio()) * nvals)
+                       and math.floor(M * nvals) == math.floor(Fraction(*M.as_integer_ratio()) * nvals))
+        rep = {"shape": list(shape), "m": m, "M": M, "exclude_zeros": ez, "mean_volume": vol.ravel().tolist(),
+               "reference_volume": ref.ravel().tolist()}
+        try:
+            got = nm.compute_mask(vol, ref, m, M, cc=False, opening=0, exclude_zeros=ez)
+            got = np.asarray(got).ravel()
+            exc = None
+        except ValueError as e:
+            got, exc = None, "ValueError"
+        except Exception as e:  # noqa
+            got, exc = None, type(e).__name__
+        ck.count(("compute_mask", ci), nontrivial=got is not None and 0 < int(got.sum()) < got.size,
+                 bucket="mask:threshold:" + ("raises" if got is None else "ez" if ez else "plain"))
+        # property oracle on the implementation: stated threshold semantics
+        thr = _ref_threshold(vol.ravel(), m, M, ez) if exact_floor else "skip"
+        if thr != "skip":
+            if thr is None:
+                if got is not None and not (M >= 1 or m < 0):
+                    ck.fail("compute_mask/empty-window-accepted", "compute_mask returned a mask although the window [floor(m n), floor(M n)) is empty "
+                            "(m=%r, M=%r, n=%d)" % (m, M, nvals), rep)
+            else:
+                want = np.array([Fraction(*float(v).as_integer_ratio()) >= thr for v in ref.ravel()])
+                if got is None:
+                    ck.fail("compute_mask/raises", "compute_mask raised %s (m=%r, M=%r, n=%d values)" % (exc, m, M, nvals), rep)
+                elif not np.array_equal(got, want):
+                    ck.fail("compute_mask/threshold-semantics/%s" % ("exclude_zeros" if ez else "plain"),
+                            "compute_mask(m=%r, M=%r, exclude_zeros=%r) on %d values: mask differs from (reference >= mid-point of the first "
+                            "largest gap in the sorted window) with threshold %s: got %s, expected %s"
+                            % (m, M, ez, nvals, thr, got.astype(int).tolist(), want.astype(int).tolist()), rep)
+        if exact_floor and (got is not None or exc == "ValueError"):
+            terms.append("obools_eqb (compute_mask_raw %s %s %s %s %s) %s" % (
+                cql([frac(x) for x in vol.ravel()]), cql([frac(x) for x in ref.ravel()]), cq(m), cq(M), cbool(ez), _obools(got)))
+            meta.append(rep)
+        # invariance under positive affine intensity changes, on the full pipeline (cc / opening on)
+        if got is not None and ci % 2 == 0:
+            a = [0.5, 2.0, 4.0, 0.25, 3.0][ci % 5]
+            b = 0.0 if ez else [-3.0, 0.0, 1.5, 16.0][ci % 4]
+            for cc, opening in ((False, 0), (True, 0), (True, 1)):
+                n_aff += 1
+                ck.count(("compute_mask-affine", ci, cc, opening), bucket="mask:affine")
+                try:
+                    r1 = nm.compute_mask(vol, ref, m, M, cc=cc, opening=opening, exclude_zeros=ez)
+                    r2 = nm.compute_mask(a * vol + b, a * ref + b, m, M, cc=cc, opening=opening, exclude_zeros=ez)
+                except Exception as e:  # noqa
+                    ck.fail("compute_mask/affine-invariance/raises", "compute_mask raised %s on the pair x / %r x + %r" % (e, a, b),
+                            dict(rep, a=a, b=b, cc=cc, opening=opening))
+                    continue
+                if not np.array_equal(r1, r2):
+                    ck.fail("compute_mask/affine-invariance", "compute_mask(%r * x + %r) selects different voxels than compute_mask(x) "
+                            "(cc=%r, opening=%r, m=%r, M=%r)" % (a, b, cc, opening, m, M), dict(rep, a=a, b=b, cc=cc, opening=opening))
+        if ci == 1:
+            ck.sample({"call": "compute_mask(vol%s, m=%r, M=%r, cc=False, opening=0)" % (shape, m, M),
+                       "vol": vol.ravel().tolist(), "mask": None if got is None else got.astype(int).tolist()})
+    # ---------------- intersect_masks threshold rule
+    nint = 0
+    iterms, imeta = [], []
+    for n in range(1, 6):
+        for rep_i in range(ck.n(2, 8)):
+            shape = [(2, 3, 2), (3, 3, 3), (2, 2, 4)][(n + rep_i) % 3]
+            ms = [rng.random(shape) < 0.55 for _ in range(n)]
+            count = np.sum([mm.astype(int) for mm in ms], axis=0)
+            for j in range(0, 11):
+                thr = j / 10.0
+                nint += 1
+                ck.count(("intersect", n, rep_i, j), bucket="mask:intersect")
+                rep = {"n_masks": n, "threshold": thr, "shape": list(shape), "masks": [mm.astype(int).ravel().tolist() for mm in ms]}
+                try:
+                    got = nm.intersect_masks([mm.copy() for mm in ms], threshold=thr, cc=False)
+                except Exception as e:  # noqa
+                    ck.fail("intersect_masks/raises", "intersect_masks(%d masks, threshold=%r) raised %s" % (n, thr, e), rep)
+                    continue
+                want = (count == n) if j == 10 else (count * 10 > j * n)
+                if j == 0:
+                    want = count > 0
+                if not np.array_equal(np.asarray(got), want):
+                    ck.fail("intersect_masks/threshold-rule/%s" % ("intersection" if j == 10 else "union" if j == 0 else "level"),
+                            "intersect_masks(%d masks, threshold=%r, cc=False): voxel counts %s gave %s, expected count > threshold*n -> %s"
+                            % (n, thr, count.ravel().tolist(), np.asarray(got).astype(int).ravel().tolist(), want.astype(int).ravel().tolist()), rep)
+                tn = min(thr, 1 - 1.e-7) * n          # the implementation's floating-point product, threaded into the model
+                iterms.append("bools_eqb (intersect_sel %s (intersect_counts %s)) %s" % (
+                    cq(tn), clist([czl(mm.astype(int).ravel()) for mm in ms]), clist([cbool(bool(b)) for b in np.asarray(got).ravel()])))
+                imeta.append(rep)
+                if j in (0, 5, 10):
+                    gcc = nm.intersect_masks([mm.copy() for mm in ms], threshold=thr, cc=True)
+                    comps = _components(want)
+                    if comps:
+                        big = max(len(c) for c in comps)
+                        sel = sorted(map(tuple, np.argwhere(gcc)))
+                        if sel not in [c for c in comps if len(c) == big]:
+                            ck.fail("intersect_masks/cc-not-largest-component", "intersect_masks(cc=True) is not a largest connected component "
+                                    "of the thresholded intersection", rep)
+                    elif np.any(gcc):
+                        ck.fail("intersect_masks/cc-nonempty-from-empty", "intersect_masks(cc=True) non-empty although nothing passes", rep)
+    for thr in (-0.1, 1.5):
+        try:
+            nm.intersect_masks([np.ones((2, 2, 2), bool)], threshold=thr, cc=False)
+            ck.fail("intersect_masks/threshold-out-of-range-accepted", "threshold=%r accepted" % thr, {"threshold": thr})
+        except ValueError:
+            pass
+    # ---------------- largest_cc / threshold_connect_components
+    ncc = ck.n(120, 1000)
+    cterms, cmeta = [], []
+    for ci in range(ncc):
+        shape = [(3, 3, 3), (2, 4, 3), (4, 4, 2), (1, 6, 2), (5, 3, 3)][ci % 5]
+        dens = [0.3, 0.45, 0.6, 0.15][ci % 4]
+        mk = rng.random(shape) < dens
+        rep = {"shape": list(shape), "mask": mk.astype(int).ravel().tolist()}
+        comps = _components(mk)
+        ck.count(("largest_cc", ci), nontrivial=len(comps) > 1, bucket="mask:cc:%s" % ("0" if not comps else "1" if len(comps) == 1 else ">1"))
+        try:
+            got = nm.largest_cc(mk)
+            exc = None
+        except ValueError:
+            got, exc = None, "ValueError"
+        if not comps:
+            if got is not None:
+                ck.fail("largest_cc/empty-mask-accepted", "largest_cc of an all-False mask did not raise ValueError", rep)
+        elif got is None:
+            ck.fail("largest_cc/raises", "largest_cc raised ValueError on a non-empty mask", rep)
+        else:
+            big = max(len(c) for c in comps)
+            first_big = [c for c in comps if len(c) == big][0]       # scan-order tie rule (labels are numbered in scan order)
+            sel = sorted(map(tuple, np.argwhere(got)))
+            if sel != first_big:
+                ck.fail("largest_cc/not-largest-component/%s" % ("tie" if sum(len(c) == big for c in comps) > 1 else "unique"),
+                        "largest_cc selected %s; components (6-connectivity) have sizes %s, expected the first largest one %s"
+                        % (sel, [len(c) for c in comps], first_big), rep)
+            # scipy.ndimage.label reference
+            lab, nb = ndimage.label(mk)
+            sizes = np.bincount(lab.ravel())[1:]
+            if not np.array_equal(got, lab == (1 + int(np.argmax(sizes)))):
+                ck.fail("largest_cc/differs-from-ndimage-label-reference", "largest_cc differs from labels == argmax(component sizes)", rep)
+        lab, nb = ndimage.label(mk)
+        cterms.append("obools_eqb (largest_cc_sel %s %s %s) %s" % (
+            clist([cbool(bool(b)) for b in mk.ravel()]), cnatl(lab.ravel()), cnat(nb), _obools(None if got is None else got.ravel())))
+        cmeta.append(("largest_cc", rep))
+        # threshold_connect_components
+        vals = np.where(mk, rng.integers(1, 9, size=shape), 0).astype(float)
+        thr = [1, 2, 3, 5, 2.5][ci % 5]
+        out = nm.threshold_connect_components(vals, thr)
+        want = vals.copy()
+        for c in comps:
+            if len(c) < thr:
+                for p in c:
+                    want[p] = 0
+        rep2 = dict(rep, values=vals.ravel().tolist(), threshold=thr)
+        ck.count(("tcc", ci), nontrivial=len(comps) > 1, bucket="mask:threshold_cc")
+        if not np.array_equal(out, want):
+            ck.fail("threshold_connect_components/semantics", "components of size < %r not (only) removed: got %s, expected %s"
+                    % (thr, out.ravel().tolist(), want.ravel().tolist()), rep2)
+        cterms.append("qlist_eqb (threshold_cc %s %s %s) %s" % (cql([frac(x) for x in vals.ravel()]), cnatl(lab.ravel()), cq(float(thr)),
+                                                           cql([frac(x) for x in out.ravel()])))
+        cmeta.append(("threshold_connect_components", rep2))
+    # ---------------- series_from_mask extraction order
+    nser = _series_from_mask(ck, nm, rng)
+    # ---------------- correspondence with the Coq model
+    n_cmp = 0
+    if ck.build is not None and ck.build.ok:
+        for name, tt, mm, sig in (("cm", terms, meta, "compute_mask/model-vs-impl"), ("im", iterms, imeta, "intersect_masks/model-vs-impl"),
+                                  ("cc", cterms, cmeta, "components/model-vs-impl")):
+            res = ck.coq_bools(HDR_MASK, tt, shard=120, name=name)
+            n_cmp += len(res)
+            ck.cov["traces_validated_against_impl"] += len(res)
+            for ok, rep in zip(res, mm):
+                if not ok:
+                    extra = ""
+                    if name == "cm":
+                        extra = ck.coq_show(HDR_MASK, "mask_threshold %s %s %s %s" % (
+                            cql([frac(x) for x in rep["mean_volume"]]), cq(rep["m"]), cq(rep["M"]), cbool(rep["exclude_zeros"])))
+                    ck.fail(sig, "Coq model and implementation disagree (%s) %s" % (sig.split("/")[0], extra), rep if isinstance(rep, dict) else {"case": rep})
+                    break
+    ck.section("mask", compute_mask_cases=ncm, affine_pairs=n_aff, intersect_cases=nint, cc_cases=ncc, series_cases=nser, model_cases=n_cmp)
+
+
+def _series_from_mask(ck, nm, rng):
+    import nibabel as nib
+    n = 0
+    d = ck.scratch / "series"
+    d.mkdir(exist_ok=True)
+    for k, shape in enumerate([(2, 3, 2), (3, 2, 4)]):
+        T = 3 + k
+        data = rng.integers(-50, 50, size=shape + (T,)).astype(np.float32)
+        mk = rng.random(shape) < 0.5
+        mk[0, 0, 0] = True
+        f4 = str(d / ("s4_%d.nii" % k))
+        nib.save(nib.Nifti1Image(data, np.eye(4)), f4)
+        f3 = []
+        for t in range(T):
+            f = str(d / ("s3_%d_%d.nii" % (k, t)))
+            nib.save(nib.Nifti1Image(data[..., t], np.eye(4)), f)
+            f3.append(f)
+        want = np.array([data[idx] for idx in np.ndindex(shape) if mk[idx]])     # row-major voxel order, (voxel, time)
+        for kind, arg in (("4d-file", f4), ("3d-files", f3)):
+            n += 1
+            ck.count(("series", k, kind), bucket="mask:series")
+            got, _hdr = nm.series_from_mask(arg, mk)
+            if got.shape != want.shape or not np.array_equal(got, want):
+                ck.fail("series_from_mask/order/%s" % kind, "series_from_mask(%s) is not data[mask] in row-major voxel order with shape (voxel, time): "
+                        "shape %s vs %s" % (kind, got.shape, want.shape),
+                        {"shape": list(shape), "T": T, "mask": mk.astype(int).ravel().tolist(), "data": data.ravel().tolist()})
+    return n
+
+
 def run(ck):
     ck.cov["rule"] = ("slice timing: every registered schedule name x n_slices 1..N x TR set (exhaustive over n in range; "
                       "non-trivial when n>1; distinct by (name,n,TR))")
     ck.coq_build()
     ck.overlay()
     slicetiming(ck)
+    timediff(ck)
+    masks(ck)
